@@ -18,12 +18,12 @@ func init() { register("C09", checkC09) }
 
 func c09Opts(i int) gen.PipeOpts {
 	o := gen.PipeOpts{
-		Str:        gen.StringOpts{Tricky: true, Interp: true, LeadingWS: i%9 == 0},
-		Unknown:    i%4 == 0,
+		Str:        gen.StringOpts{Tricky: true, Interp: true, LeadingWS: mix(i, 1, 9) == 0},
+		Unknown:    mix(i, 2, 4) == 0,
 		Signature:  true,
-		Sharing:    i%6 == 1,
-		TrickyKeys: i%2 == 0,
-		BigMaps:    i%5 == 0,
+		Sharing:    mix(i, 3, 6) == 1,
+		TrickyKeys: mix(i, 4, 2) == 0,
+		BigMaps:    mix(i, 5, 5) == 0,
 	}.NoSweep()
 	switch i % 7 {
 	case 0:
@@ -51,7 +51,7 @@ func checkC09(c *run.Ctx) {
 		id := run.CaseID("doc", i)
 		rs := renderings(d, r, 1, func(style, why string) { c.Count("renderings_discarded_generator_invalid", 1) })
 		rd := rs[len(rs)-1]
-		if i%3 == 0 {
+		if mix(i, 6, 3) == 0 {
 			rd = rs[0]
 		}
 		viol := func(what string, extra map[string]any) {
